@@ -623,7 +623,7 @@ def run_sizes(ctx, dtypes=("float64",)):
         for dtype in dtypes:
             for ri, (name, fn) in enumerate(reads(P)):
                 for si, (sx, sy) in enumerate(SIZE_SHAPES + extra):
-                    if ctx.quick and (si + ri + 5 * gi) % 5 != 0:
+                    if ctx.quick and (si + ri + 5 * gi) % 6 != 0:
                         continue          # quick tier: every shape pair meets every read in one of the groups
                     case = {"stream": "sizes", "type": g, "dtype": dtype, "read": name, "shape_X": list(sx), "shape_other": list(sy)}
                     try:
